@@ -266,6 +266,9 @@ class Mat(Obj):
     def abs_len(self):
         return len(self.rows)
 
+    def abs_iter(self):
+        return [Vec.view(r, self.dtype) for r in self.rows]      # iterating a 2-D array yields its rows (views)
+
     def abs_getattr(self, name, ev, node):
         if name == "shape":
             return (len(self.rows), len(self.rows[0]) if self.rows else 0)
@@ -394,6 +397,16 @@ def check_dtype(dtype, value, node):
             raise AbsRaise("OverflowError", node)
 
 
+SET_ORDER = ["asc"]         # iteration order given to sets: canonical ("asc") or reversed ("desc"). Python leaves the
+                            # order of a set unspecified (it follows hashes, and string hashes change from run to
+                            # run): a rule may evaluate the same scenario under both orders - results must agree.
+
+
+def set_items(s) -> list:
+    items = sorted(s, key=repr)
+    return items if SET_ORDER[0] == "asc" else items[::-1]
+
+
 FALLBACK_CLASS_ATTR = None  # set by engines/resolve.install(project): class-level constants read through an instance
 FALLBACK_NAMES = None       # set by engines/resolve.install(project): module-level constants / class attributes by name
 FALLBACK_RESOLVER = None    # set by engines/resolve.install(project): resolves un-scripted calls to package functions
@@ -488,6 +501,20 @@ def _arith(op: ast.operator, a, b, node):
         if isinstance(row, Vec) and isinstance(op, ast.Mult):
             return Mat([[_arith(op, x, w, node) for x in row.vals] for w in col.vals])
         raise Unsupported("broadcast with a column vector", node)
+    if (isinstance(a, Mat) and type(a) is Mat) or (isinstance(b, Mat) and type(b) is Mat):
+        shape = a if isinstance(a, Mat) else b
+        if isinstance(a, Vec) or isinstance(b, Vec):
+            vec = a if isinstance(a, Vec) else b            # a row vector broadcast over the rows
+            if any(len(r) != len(vec.vals) for r in shape.rows):
+                raise Unsupported("matrix / vector shape mismatch", node)
+            ar = a.rows if isinstance(a, Mat) else [list(vec.vals) for _ in shape.rows]
+            br = b.rows if isinstance(b, Mat) else [list(vec.vals) for _ in shape.rows]
+        else:
+            ar = a.rows if isinstance(a, Mat) else [[a] * len(r) for r in shape.rows]
+            br = b.rows if isinstance(b, Mat) else [[b] * len(r) for r in shape.rows]
+        if len(ar) != len(br) or any(len(x) != len(y) for x, y in zip(ar, br)):
+            raise Unsupported("matrix shape mismatch", node)
+        return Mat([[_arith(op, x, y, node) for x, y in zip(r1, r2)] for r1, r2 in zip(ar, br)])
     if isinstance(a, Vec) or isinstance(b, Vec):
         n = len(a) if isinstance(a, Vec) else len(b)
         av = a.vals if isinstance(a, Vec) else [a] * n
@@ -602,6 +629,19 @@ def _compare(op: ast.cmpop, a, b, node):
         a = int(a)
     if isinstance(b, bool):
         b = int(b)
+    if (isinstance(a, str) and isinstance(b, str)) or (isinstance(a, (tuple, list)) and type(a) is type(b)):
+        try:
+            return {ast.Lt: a < b, ast.LtE: a <= b, ast.Gt: a > b, ast.GtE: a >= b}[type(op)]
+        except (TypeError, KeyError):
+            raise AbsRaise("TypeError", node)
+    if hasattr(a, "__lt__") and hasattr(a, "rt") and type(op) in (ast.Lt, ast.LtE, ast.Gt, ast.GtE):
+        # instances of package classes: their own rich comparison methods
+        m = {ast.Lt: "__lt__", ast.LtE: "__le__", ast.Gt: "__gt__", ast.GtE: "__ge__"}[type(op)]
+        ok, v = a._special(m, b)
+        if ok:
+            return bool(v)
+    if (isinstance(a, str) and _num(b)) or (_num(a) and isinstance(b, str)):
+        raise AbsRaise("TypeError", node)            # '<' not supported between str and int
     if not (_num(a) and _num(b)):
         raise Unsupported(f"ordering comparison on {type(a).__name__}/{type(b).__name__}", node)
     if isinstance(op, ast.Lt):
@@ -642,6 +682,8 @@ def inplace(cur, op: str, value, node):
             value = list(value.abs_iter())
         if isinstance(value, Vec):
             value = list(value.vals)
+        if not isinstance(value, (list, tuple, set, frozenset, str, dict)):
+            raise AbsRaise("TypeError", node)        # list += <non-iterable>
         cur.extend(value)
         return True, cur
     if isinstance(cur, Vec) and op in ("+=", "-=", "*="):
@@ -813,7 +855,7 @@ class Evaluator:
             if isinstance(it, dict):
                 it = list(it)
             if isinstance(it, (set, frozenset)):
-                it = sorted(it, key=repr)
+                it = set_items(it)
             if isinstance(it, Vec):
                 it = list(it.vals)
             if hasattr(it, "abs_iter"):
@@ -1100,7 +1142,7 @@ class Evaluator:
                 if isinstance(v, Vec):
                     return list(v.vals)
                 if isinstance(v, (set, frozenset)):
-                    return sorted(v, key=repr)
+                    return set_items(v)
                 if isinstance(v, dict):
                     return list(v)
                 if isinstance(v, (list, tuple, str)):
@@ -1175,7 +1217,7 @@ class Evaluator:
                 if name == "frozenset":
                     return frozenset(v)
                 if name == "iter":
-                    return list(v) if not isinstance(v, (set, frozenset)) else sorted(v, key=repr)
+                    return list(v) if not isinstance(v, (set, frozenset)) else set_items(v)
                 if name == "any":
                     return any(self.truth(x, n) for x in v)
                 if name == "all":
@@ -1195,7 +1237,7 @@ class Evaluator:
                 if isinstance(seq, dict):
                     seq = list(seq)
                 if isinstance(seq, (set, frozenset)):
-                    seq = sorted(seq, key=repr)
+                    seq = set_items(seq)
                 if not isinstance(seq, (list, tuple)) or set(kw) - {"key", "reverse"}:
                     raise Unsupported("sorted arguments", n)
                 keyf = kw.get("key")
@@ -1212,7 +1254,7 @@ class Evaluator:
                 if isinstance(vals, Vec):
                     vals = list(vals.vals)
                 if isinstance(vals, (set, frozenset, dict)):
-                    vals = sorted(vals, key=repr)
+                    vals = set_items(vals)
                 vals = list(vals)
                 if not vals:
                     if "default" in kw:
@@ -1285,7 +1327,7 @@ class Evaluator:
                 if isinstance(args[0], Vec):
                     args[0] = list(args[0].vals)
                 if isinstance(args[0], (set, frozenset)):
-                    args[0] = sorted(args[0], key=repr)
+                    args[0] = set_items(args[0])
                 if isinstance(args[0], dict):
                     args[0] = list(args[0])
                 if isinstance(args[0], (list, tuple, str)):
@@ -1564,7 +1606,7 @@ class Evaluator:
                     self.block(st.orelse)
                 return
             if isinstance(it, (set, frozenset)):
-                it = sorted(it, key=repr)
+                it = set_items(it)
             elif isinstance(it, dict):
                 it = list(it)
             elif isinstance(it, Vec):
